@@ -127,11 +127,33 @@ def to_frame(table):
     return pd.DataFrame([tuple(r) for r in table["rows"]], columns=cols)
 
 
-def to_garr(table, cls=None, meta=None):
+COORD_DTYPES = ["int64", "int64", "int64", "int64", "int32", "uint32", "uint64", "float64"]
+
+
+def coord_dtype(case, table, salt="cd"):
+    """The dtype in which a table's start/end columns arrive (a DataFrame built by a caller may hold them as int32,
+    unsigned or float64; GenomicArray converts them): a pure function of the case JSON, limited to dtypes that can
+    hold the table's largest coordinate exactly."""
+    import json
+    import zlib
+
+    if isinstance(case, dict) and "coord_dtype" in case:
+        return case["coord_dtype"]
+    dt = COORD_DTYPES[zlib.crc32((salt + json.dumps(case, sort_keys=True, default=str)).encode()) % len(COORD_DTYPES)]
+    top = max([max(r[1], r[2]) for r in table["rows"]], default=0)
+    if (dt == "int32" and top >= 2 ** 31) or (dt == "uint32" and top >= 2 ** 32) or (dt == "float64" and top >= 2 ** 53):
+        return "int64"
+    return dt
+
+
+def to_garr(table, cls=None, meta=None, coord_dtype=None):
     from skgenome import GenomicArray
 
     cls = cls or GenomicArray
-    return cls(to_frame(table), meta)
+    df = to_frame(table)
+    if coord_dtype and coord_dtype != "int64":
+        df = df.astype({"start": coord_dtype, "end": coord_dtype})
+    return cls(df, meta)
 
 
 # ------------------------------------------------------------------ row labels
